@@ -12,6 +12,7 @@ import (
 	"fmt"
 	"os"
 	"strings"
+	"sync"
 
 	"github.com/RoaringBitmap/roaring/v2"
 	segment "github.com/blevesearch/scorch_segment_api/v2"
@@ -182,6 +183,11 @@ type readerEnv struct {
 	xopts *ExtractOpts
 	viol  *string // first visitor-stability violation seen by this task
 	depth int
+	// the postings list and iterator of this reader's previous term query, handed
+	// back as preallocation to its next one (whatever term, field or segment that
+	// is about): private to the reader, as the objects of a real searcher are
+	preL segment.PostingsList
+	preI segment.PostingsIterator
 }
 
 func (e *readerEnv) y(site string) {
@@ -227,12 +233,13 @@ func execRop(e *readerEnv, o *rop, segs []segment.Segment) (res string) {
 			return "ERR " + err.Error()
 		}
 		e.y("term.afterDictionary")
-		pl, err := dict.PostingsList([]byte(o.Term), exceptOf(o.Except), nil)
+		pl, err := dict.PostingsList([]byte(o.Term), exceptOf(o.Except), e.preL)
 		if err != nil {
 			return "ERR " + err.Error()
 		}
 		cnt := pl.Count()
-		it := pl.Iterator(o.Flags[0], o.Flags[1], o.Flags[2], nil)
+		it := pl.Iterator(o.Flags[0], o.Flags[1], o.Flags[2], e.preI)
+		e.preL, e.preI = pl, it
 		var hits []CHit
 		for {
 			p, err := it.Next()
@@ -523,6 +530,9 @@ func concurrentReaders(r *RunCtx) {
 			twins[i].Close()
 		}
 	}()
+	if r.tsan && c.Prob(1, 8, "cr.burst") {
+		w.parallelReadBurst(shared, segs)
+	}
 	// history prefix: solo calls that shape the scratch pools
 	flushPools()
 	solo := &readerEnv{xopts: &w.XOpts}
@@ -667,4 +677,79 @@ func ropString(o *rop) string {
 		return fmt.Sprintf("merge(segs=%v,drops=%v)", o.Segs, o.Drops)
 	}
 	return "?"
+}
+
+// parallelReadBurst is, like C20's release burst, a place where the schedule is
+// not the simulator's: in the race build (GOMAXPROCS 8) several goroutines that
+// really run in parallel make the same first-touch reads on a COLD instance of a
+// shared segment - dictionary loads, term queries, id lookups, stored-field
+// visits - a few dozen times. The cooperative scheduler only switches at yield
+// points; what happens inside a critical section that has lost its lock has
+// none. The oracle is C11's own and holds for every schedule: every call
+// returns what it returns alone (answers taken from the warm instance before),
+// and the race detector and the runtime (unlock of an unlocked mutex, concurrent
+// map access) stay silent. A failure replays with the probability of the
+// interleaving only.
+func (w *World) parallelReadBurst(shared []*SegH, segs []segment.Segment) {
+	r, c := w.r, w.r.ch
+	var ops []rop
+	for len(ops) < 6 {
+		o := genRop(c, w, shared, r)
+		if o.Kind == ropMerge || o.Kind == ropDV {
+			continue
+		}
+		o.YieldK = 0
+		ops = append(ops, o)
+	}
+	solo := &readerEnv{xopts: &w.XOpts}
+	want := make([]string, len(ops))
+	for i := range ops {
+		want[i] = execRop(solo, &ops[i], segs)
+	}
+	saved := zap.VerifYield
+	zap.VerifYield = nil
+	defer func() { zap.VerifYield = saved }()
+	const rounds = 40
+	const readers = 6
+	for round := 0; round < rounds; round++ {
+		cold := make([]segment.Segment, len(shared))
+		for i, h := range shared {
+			cold[i] = w.twinOf(h)
+		}
+		start := make(chan struct{})
+		got := make([][]string, readers)
+		var wg sync.WaitGroup
+		for g := 0; g < readers; g++ {
+			wg.Add(1)
+			go func(g int) {
+				defer wg.Done()
+				defer func() {
+					if rec := recover(); rec != nil {
+						got[g] = append(got[g], fmt.Sprintf("PANIC %v", rec))
+					}
+				}()
+				env := &readerEnv{xopts: &w.XOpts}
+				<-start
+				for i := range ops {
+					k := (i + g) % len(ops)
+					o := ops[k]
+					got[g] = append(got[g], fmt.Sprintf("%d=%s", k, execRop(env, &o, cold)))
+				}
+			}(g)
+		}
+		close(start)
+		wg.Wait()
+		for g := range got {
+			for i, s := range got[g] {
+				k := (i + g) % len(ops)
+				if s != fmt.Sprintf("%d=%s", k, want[k]) {
+					r.fail("C11.solo-answer", "parallel readers", "%d readers in parallel on a freshly opened instance (round %d): reader %d got %s for %s, alone the call returns %s", readers, round, g, short(s), ropString(&ops[k]), short(want[k]))
+				}
+			}
+		}
+		for _, s := range cold {
+			s.Close()
+		}
+	}
+	r.countN("probe.readers.parallel-burst-rounds", rounds)
 }
